@@ -99,7 +99,12 @@ impl RtpsStatefulWriter {
             .iter_mut()
             .find(|rp| rp.remote_reader_guid() == reader_proxy.remote_reader_guid)
         {
-            *rp = rtps_reader_proxy;
+            // The reader is announced again (e.g. after a QoS update): what has been sent to and acknowledged by
+            // it stays so, only where to reach it may have changed
+            rp.set_locators(
+                &reader_proxy.unicast_locator_list,
+                &reader_proxy.multicast_locator_list,
+            );
         } else {
             self.matched_readers.push(rtps_reader_proxy);
         }
